@@ -215,7 +215,7 @@ def build_audit(rng, stub_rate=0.25):
 
 def draw_sample(rng, contests, cvrs, dicts, honest, k=None):
     A = lib()
-    k = k if k is not None else rng.choice([1, 2, 5, 8, 12, 16, 20])
+    k = k if k is not None else rng.choice([1, 2, 4, 6, 8, 12, 16])
     if rng.random() < 0.03:
         k = 0                                   # empty sample: most tests raise on it (C11's domain), the sequence then ends
     idx = [rng.randrange(len(cvrs)) for _ in range(k)]
@@ -582,7 +582,7 @@ def run(ctx, res):
         cases.append(run_sequence(rng, res, stats))
     for _ in range(ctx.n(300, 6000)):
         cases.append(run_poked(rng, res, stats))
-    cr = C.run_corr(ctx.pid, "seq", IMPORTS, "list contest * list step", cases, seq_lit, "agree_seq", shard=60, show="show_seq")
+    cr = C.run_corr(ctx.pid, "seq", IMPORTS, "list contest * list step", cases, seq_lit, "agree_seq", shard=max(20, -(-len(cases) // 16)), show="show_seq")
     res.corr.append(("set_p_values / summarize_status / reset_p_values sequences vs Status.v", cr, seq_json))
     caps = [gen_cap(rng) for _ in range(ctx.n(300, 5000))]
     for c in caps:
